@@ -206,6 +206,13 @@ class Blockwise(ArrayExpr):
 
         if any(isinstance(op, Delayed) for op in self.operands):
             return False
+        # Same for dask collections inside the keyword arguments: _layer turns
+        # them into a reference to their finalized value, _task (used by the
+        # fused layer) would hand the lazy collection itself to the function.
+        from dask.delayed import unpack_collections
+
+        if any(unpack_collections(v)[1] for v in (self.kwargs or {}).values()):
+            return False
 
         # Check for contracted dimensions with multiple blocks
         # These are dimensions in input but not in output - we can only fuse
